@@ -106,6 +106,8 @@ pub enum Op {
     /// A full walk following next_page_token (bounded number of pages).
     Walk { kind: ListKind, parent: String, page_size: i32 },
     Publish { topic: String, msgs: Vec<MsgSpec> },
+    /// One Publish request with `count` small messages (large backlogs without a large Plan).
+    PublishMany { topic: String, count: u32 },
     Pull { sub: String, max: i32, immediate: bool },
     /// Immediate pulls (max 1000) until an empty response; nothing is acked.
     DrainPull { sub: String },
